@@ -1,12 +1,12 @@
 package main
 
 import (
-	"sync"
 	"flag"
 	"fmt"
 	"os"
 	"sort"
 	"strings"
+	"sync"
 )
 
 func main() {
